@@ -330,6 +330,19 @@ async fn episode(p: &EpParams) -> EpReport {
                     rep.viol("C14", format!("C14:repost-after-accept:status={}", st), format!("message {} was POSTed again at {} ms although attempt {} had been answered {} at {} ms", tg, r.vt_begin / MS, a, st, mine[a].vt_answer.unwrap_or(0) / MS));
                 }
             }
+            // P4 (seen from C04 and C03): a POST that has not been answered yet is a delivery whose lease
+            // (the subscription's ack deadline, 60 s) is running; the message is not handed out again
+            // before that lease ends. (5 s of slack: the lease began when the push round pulled the
+            // page, a little before the POST itself.)
+            if !competing {
+                if let Some(nx) = mine.get(k + 1) {
+                    let unanswered = r.vt_answer.map(|a| a > nx.vt_begin).unwrap_or(true);
+                    if unanswered && nx.vt_begin + 5 * SEC < r.vt_begin + DEADLINE_S * SEC {
+                        rep.viol("C04", "C04:early:push-repost-while-unanswered", format!("message {} was POSTed at {} ms, that POST was still unanswered, and it was POSTed again at {} ms - {} s into an ack deadline of {} s", tg, r.vt_begin / MS, nx.vt_begin / MS, (nx.vt_begin - r.vt_begin) / SEC, DEADLINE_S));
+                        rep.viol("C03", "C03:X3:lease-overlap:push-repost", format!("message {} was POSTed at {} ms and again at {} ms while the first POST was unanswered and its lease ({} s) was running", tg, r.vt_begin / MS, nx.vt_begin / MS, DEADLINE_S));
+                    }
+                }
+            }
             // P2: after a failure, another POST follows
             // (with a competing puller a failed message may sit in the puller's lease for 60 s: no timing claim)
             if !competing && first_ok.map(|a| k < a).unwrap_or(true) && !accepted_in_time(r) {
